@@ -303,3 +303,78 @@ y:
 !1 = !{i8* blockaddress(@g, %y), !0}
 !2 = !{i8* blockaddress(@f, %bb2), i8* blockaddress(@g, %x)}
 !3 = !{!{i8* blockaddress(@g, %x)}}
+;;; ATOM const/int-s0x-negative-at-many-widths
+@s0 = global i4 s0xF
+@s1 = global i4 s0xC
+@s2 = global i8 s0xD4
+@s3 = global i8 s0xE0
+@s4 = global i12 s0xDF8
+@s5 = global i12 s0xF70
+@s6 = global i16 s0xAEB5
+@s7 = global i16 s0xD616
+@s8 = global i20 s0x9AC20
+@s9 = global i20 s0x872DE
+@s10 = global i24 s0x9D4A51
+@s11 = global i24 s0xA2CDFF
+@s12 = global i28 s0xE0268BB
+@s13 = global i28 s0xE9387AB
+@s14 = global i32 s0xD50CD107
+@s15 = global i32 s0xE1C63752
+@s16 = global i36 s0xC1D8FB1EB
+@s17 = global i36 s0xBA9EFF75E
+@s18 = global i40 s0xD56708A570
+@s19 = global i40 s0x873B40A837
+@s20 = global i44 s0xFFB8E5E918A
+@s21 = global i44 s0xF69800048D4
+@s22 = global i48 s0xB6DF181DD2C6
+@s23 = global i48 s0xDBC504012D6C
+@s24 = global i52 s0x9B698F36C72DB
+@s25 = global i52 s0xD2A42995DB506
+@s26 = global i56 s0xFEF51AE7A370BB
+@s27 = global i56 s0xC6D974A5EC7EE1
+@s28 = global i60 s0xBDCE139B0AFB954
+@s29 = global i60 s0xF748F1DB9D9CA44
+@s30 = global i64 s0xC1CDD8ADCFCC5568
+@s31 = global i64 s0x981B949609105656
+@s32 = global i68 s0xC65903BF6E304CF9E
+@s33 = global i68 s0xDCD0804FB3DCB24B1
+@s34 = global i72 s0xB3D21070307F6EADA7
+@s35 = global i72 s0xE2A1B493F480673FDA
+@s36 = global i76 s0xEAACFA6B27AC84E88AD
+@s37 = global i76 s0x93F5B48CA9BBAE25C6A
+@s38 = global i80 s0xDB49AAC1A2385F295E79
+@s39 = global i80 s0x97668365F9E4FCEECB86
+@s40 = global i84 s0xBFABC94029C9F4DA58DD1
+@s41 = global i84 s0xA1E397563CF92647C8B64
+@s42 = global i88 s0xB3781E3F51D90FCBC22EC0
+@s43 = global i88 s0xDD40A28979D8C219B9B231
+@s44 = global i92 s0x9424455B7C049EEA5809DD6
+@s45 = global i92 s0xA0BB93FBDBA1909A41A7632
+@s46 = global i96 s0x95DA81D7BAA1AF6723FF56EC
+@s47 = global i96 s0xD645FE436D6582AFE2DC6554
+@s48 = global i100 s0x95A517FF452E74F487882C580
+@s49 = global i100 s0xE1E46D510034C962E25925C0A
+@s50 = global i104 s0x843208B89B35E3DDB8B33A87A8
+@s51 = global i104 s0xFFA032C057EFCC225E5E997106
+@s52 = global i108 s0xDFCA542D42AC0AE8B29AA03AD78
+@s53 = global i108 s0xB1D460793140B2B65D322BF545F
+@s54 = global i112 s0xDD3549E310F117A095DD2A31F31F
+@s55 = global i112 s0xE9FFD7FC460EA57F8264505FD7DD
+@s56 = global i116 s0xA5BFA5E50378D9EAED2033146103D
+@s57 = global i116 s0xEE0EC15B16C388C6C6A7356FE6531
+@s58 = global i120 s0x94DCB3CFD1748FE3A9067D421C0897
+@s59 = global i120 s0xA10EF1B3058F54FB13EBAC7DA379F4
+@s60 = global i124 s0xE9427264D39338DF47AD6D557899E8F
+@s61 = global i124 s0xA84676A003EE5BF394DCDFBABE9B0E5
+@s62 = global i128 s0xCE0B4DB54A2D7498D027DF836CF8EB73
+@s63 = global i128 s0xD25E3DF14FFDC777E9D83CCA16208257
+@s64 = global i160 s0x91F78080DB60AA10BDEF0ED8C40EBCD4BA40B618
+@s65 = global i160 s0xC73850A1248C02DB8378E2DB5AC1F1D930B3B981
+@s66 = global i192 s0xC7A9D2C8B382F320AE12E0A6A24F5EAFCA5D05372BC129EE
+@s67 = global i192 s0xB38EB8C159368946B77B1D3134FF8AF87873265ABAD0C41F
+@s68 = global i256 s0xD6E8C44FE55A93339F3B305AB99665D934D55CEC4F40A041B69CE58929309539
+@s69 = global i256 s0x9FC9482985E50A376F4B41F837C53157F412E6E5C354BA6025BBD854077E482B
+@s70 = global i512 s0x80AF2C4288BE395399E408352DED510668C9C815019F2442AB8A8CC396D9A7BF4C152442010DB2B469942A3958651ECF6CF90B49417A216BAF5787D89688D8A8
+@s71 = global i512 s0xA1EA68C681DBD86D7CAF17D32F256098A20671F3AAB8E4A47C22EBB757C07B6DEC34B746C55B734F8F31B36916668115BB12FE8F830D5DAD2DDEC19783350334
+@s72 = global i1024 s0xBCB378C231B7FC0524D64FD54D260608429C64FFCF5D57337A298D23E813A45CA9FA239B0AE3A7E71496AF29C35CD3268A9FFAD577A80BD563536887049E2EC619173C5F0E99DDB0004195C7311FF83F3346F8BBCB7FF4D84C825120F265FF096A20904826038229A30A651426705AB168976D18FC46EBF2263325851882D85C
+@s73 = global i1024 s0xB48298652AE713DC4FC20AAD1A8D3C8738079C47CC5A79DA2AC9943732B60488E0EB4269A86DB6532CC29EA1FADA5B23B9641BBB08C999B39E295319AFD749A57A588769FE7371828AD9245B08565B6CC03D26BBBA951987E00D965B933A8D93E1F3E38867306A24E14DC4BF18398E12C8418577669EC9E62F64413CA40A063F
